@@ -153,6 +153,20 @@ def rule_bp(ctx, R):
                     if lab == "LT[%s,Vec::len(PROGRAM)]=1" % v:
                         guards.append((gb, s))
         R.check(bool(guards) and not reaches_without(cfg, [0], bi, cut_edges=guards), "bp:range", "a user-supplied breakpoint %s is inserted only after it compared strictly below the program length" % v[:60], t["span"]["at"])
+    # `break` without a number lists, with a number toggles: the listing is entered exactly for fewer than two words
+    prints_ = [bi for bi, t in b.calls() if callee_name(t["f"], fb) == "hyeong::app::check::print_un_opt_codes" and "BPS" in roles.of_operand(t["args"][2], bi)]
+    few, many = [], []
+    for gb, blk in enumerate(b.blocks):
+        tt = blk["term"]
+        if tt["k"] == "switch" and not blk["cleanup"]:
+            for s in cfg.succ[gb]:
+                lab = ev.generic_edge(gb, tt, s) or ""
+                if lab.startswith("LT[Vec::len(") and "read_line_from" in lab and lab.endswith(",K2]=1"):
+                    few.append((gb, s))
+                elif lab.startswith("LT[Vec::len(") and "read_line_from" in lab and lab.endswith(",K2]=0"):
+                    many.append((gb, s))
+    if R.anchor(len(prints_) == 1 and len(few) == 1 and len(many) == 1, "bp:listing", "the breakpoint listing and the test on the number of words"):
+        R.check(not reaches_without(cfg, [0], prints_[0], cut_edges=few) and all(not reaches_without(cfg, [many[0][1]], prints_[0], cut_blocks=[bi for bi, t in b.calls() if callee_name(t["f"], fb) == "hyeong::util::io::read_line_from"]) for _ in (0,)), "bp:listing_iff", "`break` lists the breakpoints exactly when no number is given (fewer than two words)", b.blocks[prints_[0]]["term"]["span"]["at"])
     # the listing indexes the program with every breakpoint: the closure doing so is the only indexing by a set element
     # run stops at the first breakpointed command: `contains(&last.1)` decides between stopping and stepping
     cont = [(bi, t) for bi, t in b.calls() if callee_name(t["f"], fb) == "std::collections::HashSet::contains" and roles.of_operand(t["args"][0], bi) == "BPS"]
@@ -428,6 +442,19 @@ def rule_bp_exact(ctx, R):
         return
     R.check(not any(reaches_without(cfg, [yes[0][1]], s_, cut_blocks=[head] + reads) for s_ in steps), "bp:stop_is_unconditional",
             "when the newest position carries a breakpoint the run stops: no step is executed before control returns to the prompt", b.blocks[yes[0][0]]["term"]["span"]["at"])
+    # the main loop runs while the newest position is a command of the program (the indexing of the program with
+    # that position, audited in NOPANIC, relies on exactly this test)
+    stay_ = []
+    for s_ in cfg.succ[head]:
+        pass
+    for gb in sorted(heads[head]):
+        tt = b.blocks[gb]["term"]
+        if tt["k"] == "switch":
+            for s_ in cfg.succ[gb]:
+                lab = ev.generic_edge(gb, tt, s_) or ""
+                if lab.startswith("LT[UNWRAP([T]::last(HIST)).1,") and "Vec::len(PROGRAM)" in lab:
+                    stay_.append((lab, s_ in heads[head]))
+    R.check(sorted(stay_) == [("LT[UNWRAP([T]::last(HIST)).1,Vec::len(PROGRAM)]=0", False), ("LT[UNWRAP([T]::last(HIST)).1,Vec::len(PROGRAM)]=1", True)], "bp:loop_condition", "the debugger keeps going exactly while the newest position is below the program length: %s" % sorted(stay_), b.span)
     # stopping means leaving the running mode: the flag is cleared on the way back to the prompt
     flags_ = [l for l, d in enumerate(b.locals) if d["ty"] == "bool" and l in b.local_names()]
     clears = []
@@ -600,6 +627,15 @@ def rule_showstate(ctx, R):
         else:
             ok = len(keys) == 1 and keys[0] in ("Ord::cmp(P2.0,P3.0)", "UNWRAP(PartialOrd::partial_cmp(P2.0,P3.0))", "PartialOrd::partial_cmp(P2.0,P3.0)")
         R.check(ok, "showstate:numeric_order", "stacks are listed in the order of their numbers (the stack index itself is the sort key): %s %s" % (kind, keys), st_["span"]["at"])
+    # the `state` command hands the newest history entry's *state* to this printer
+    M_ = DebugModel(fb)
+    if R.anchor(M_.ok, "debug_model", "debug::run anchors"):
+        dbg_args = []
+        for t in templates_of(M_.b, fb, M_.roles.org):
+            for a_, k_ in zip(t.args, t.kinds):
+                if k_ == "debug":
+                    dbg_args.append(M_.roles.of_origin(a_))
+        R.check(dbg_args == ["UNWRAP([T]::last(HIST)).0"], "showstate:what", "the only value the debugger prints with {:?} is the state of the newest history entry: %s" % dbg_args, M_.b.span)
     try:
         ts = templates_of(b, fb, roles.org)
     except Exception as e:
